@@ -1,0 +1,51 @@
+//go:build verif
+
+// Contracts for package res, read by the verifier in /verif (build tag verif).
+// This file contains comments only; it is never compiled without the tag and
+// declares nothing with it. Syntax: /verif/DESIGN.md section 3.
+
+package res
+
+//@ props C17
+//@
+//@ # ---------------------------------------------------------------- grammar
+//@ spec func okch(c int) bool
+//@   = 33 <= c && c <= 126 && c != '?'
+//@ spec func tokStart(p string, i int) bool
+//@   = i == 0 || p[i-1] == '.'
+//@ spec func tokEnd(p string, i int) int
+//@   decreases len(p) - i
+//@   = ite(i < 0 || i >= len(p) || p[i] == '.', i, tokEnd(p, i+1))
+//@ spec func pmatch(p string, s string, pi int, si int) bool
+//@   decreases len(p) - pi
+//@   = ite(pi < 0 || si < 0 || pi > len(p) || si > len(s), false,
+//@     ite(pi == len(p), si == len(s),
+//@     ite(si == len(s), false,
+//@     ite(tokStart(p, pi) && (p[pi] == '$' || p[pi] == '*'), s[si] != '>' && pmatch(p, s, tokEnd(p, pi+1), tokEnd(s, si)),
+//@     ite(tokStart(p, pi) && p[pi] == '>', pi+1 == len(p),
+//@         p[pi] == s[si] && pmatch(p, s, pi+1, si+1))))))
+//@
+//@ spec func allDollar(p string, i int) bool
+//@   decreases len(p) - i
+//@   = ite(i < 0 || i >= len(p) || p[i] == '.', true, p[i] == '$' && allDollar(p, i+1))
+//@ spec func pvalid(p string) bool
+//@   = len(p) == 0 || (
+//@       forall(i, 0, len(p), p[i] == '.' || okch(p[i]))
+//@       && p[0] != '.' && p[len(p)-1] != '.'
+//@       && forall(i, 0, len(p)-1, !(p[i] == '.' && p[i+1] == '.'))
+//@       && forall(i, 0, len(p), imp(p[i] == '*', tokStart(p, i) && (i+1 == len(p) || p[i+1] == '.')))
+//@       && forall(i, 0, len(p), imp(p[i] == '>', tokStart(p, i) && i == len(p)-1))
+//@       && forall(i, 0, len(p), imp(tokStart(p, i) && p[i] == '$', !allDollar(p, i))))
+//@
+//@ func (p Pattern) Matches(s string) (res bool)
+//@   requires valid: pvalid(string(p))
+//@   ensures sem: res == pmatch(string(p), s, 0, 0)
+//@   loop 1 invariant 0 <= pi && pi <= pl && 0 <= si && si <= sl && pl == len(p) && sl == len(s)
+//@   loop 1 invariant st: start == tokStart(string(p), pi)
+//@   loop 1 invariant carry: pmatch(string(p), s, 0, 0) == pmatch(string(p), s, pi, si)
+//@   loop 1 decreases pl - pi
+//@   loop 2 invariant loopentry(pi) <= pi && pi <= pl && pl == len(p) && tokEnd(string(p), loopentry(pi)) == tokEnd(string(p), pi)
+//@   loop 2 invariant nodot: pi >= 1 && p[pi-1] != '.'
+//@   loop 2 decreases pl - pi
+//@   loop 3 invariant loopentry(si) <= si && si <= sl && sl == len(s) && tokEnd(s, loopentry(si)) == tokEnd(s, si)
+//@   loop 3 decreases sl - si
